@@ -206,20 +206,22 @@ def norm_trace(op, tr):
     """canonical form of one operation's primitive trace.  Rollback's first loop
     ranges over a Go map: its leading run of base lstat calls is compared as a
     multiset."""
-    # copyDir compares two kernel-assigned timestamps when the directory's own
-    # mtime is not a preset one (external modification, second transaction): whether
-    # they coincide depends on the clock tick, so a Chtimes right after the
-    # MkdirAll/Lstat of the same path is compared as optional (dropped on both sides)
+    # copyDir/copyFile compare two kernel-assigned timestamps when the original's own
+    # mtime is not a preset one (external modification, earlier write in the same or a
+    # previous transaction): whether they coincide depends on the clock tick, so the
+    # Chtimes after the Lstat [Chmod] of the same path is dropped on both sides (the
+    # resulting mtimes are still compared in the dumps)
     out = []
     for j, t in enumerate(tr):
         f = t.split(" ")
-        if f[1] == "chtimes" and j >= 2:
-            f1, f2 = tr[j - 1].split(" "), tr[j - 2].split(" ")
-            if f1[0] == f[0] and f1[1] == "lstat" and f1[2] == f[2] and f2[0] == f[0] and f2[1] in ("mkdirall", "chmod") and f2[2] == f[2]:
+        if f[1] == "chtimes" and j >= 1:
+            # copyDir/copyFile: Lstat, [Chmod], Chtimes if the two timestamps differ
+            f1 = tr[j - 1].split(" ")
+            if f1[0] == f[0] and f1[2] == f[2] and f1[1] == "lstat":
                 continue
-            if j >= 3:
-                f3 = tr[j - 3].split(" ")
-                if f1[1] == "chmod" and f2[1] == "lstat" and f3[1] == "mkdirall" and f3[2] == f[2] and f3[0] == f[0]:
+            if j >= 2:
+                f2 = tr[j - 2].split(" ")
+                if f1[0] == f[0] and f1[2] == f[2] and f1[1] == "chmod" and f2[0] == f[0] and f2[2] == f[2] and f2[1] == "lstat":
                     continue
         out.append(t)
     tr = out
